@@ -182,6 +182,17 @@ def case_eos(c: dict) -> dict:
         if c1 is None or vmid is None:
             r.true(f"{name}:boundaries-returned", False, vw=v, got=[c1, c2, Tp2, Tm2, vmid])
             continue
+        # the wall velocity handed over as a zero-dimensional float array (what np.asarray(setting), x[i, ...] or an optimiser's
+        # callback deliver) is a velocity like any other: same constants, and the caller's array comes back untouched
+        try:
+            varr = np.array(float(v))
+            b2 = hyd.findHydroBoundaries(varr)
+            r.true(f"{name}:velocity-argument-untouched(0-d array)", float(varr) == float(v), before=float(v), after=float(varr))
+            r.true(f"{name}:boundaries-same-for-0-d-array-velocity", all(x is not None for x in b2) and np.array_equal(
+                np.array([float(x) for x in b2]), np.array([float(c1), float(c2), float(Tp2), float(Tm2), float(vmid)])),
+                array=[None if x is None else float(x) for x in b2], scalar=[float(c1), float(c2), float(Tp2), float(Tm2), float(vmid)])
+        except Exception as ex:  # noqa: BLE001
+            r.true(f"{name}:boundaries-0-d-array-velocity-no-exception", False, error=repr(ex)[:200], vw=v)
         # findHydroBoundaries re-runs the matching: same numbers (deterministic)
         r.close(f"{name}:boundaries-Tp", Tp2, Tp, 1e-12 * Tp)
         r.close(f"{name}:boundaries-Tm", Tm2, Tm, 1e-12 * Tm)
